@@ -48,7 +48,7 @@ _ABSOLUTE = {"vlib.pulses.moda", "vlib.pulses.modb", "vlib.pulses.pkgc", "vlib.p
 EXISTING_MODULES = _ABSOLUTE | {".moda", ".modb", ".pkgc", ".pkgd", ".alt.moda"}
 EXISTING_ALT = _ABSOLUTE | {".moda"}
 MISSING_MODULES = ["nosuch.module", ".relmissing", "vlib.pulses.nosuch", "vlib.nosuchpkg.mod", ".alt.nosuch", ".pkgd.nosuch", ".nosuchpkg.moda"]
-IMPORTING = ("parse-rel", "run", "parse-file", "run-file", "parse-alt")
+IMPORTING = ("parse-rel", "run", "parse-file", "run-file", "parse-alt", "parse-inj-load")
 
 RUNNABLE = [
     "from .pkgc usepulses *\nregister q[2]\nsubcircuit { XC q[1] }\n",
@@ -71,7 +71,7 @@ def _valid_text(ch):
 
 def _string_case(ch):
     kind = ch.pick(["junk", "soup", "prefix-char", "prefix-token", "mutate", "mutate", "special", "missing-module"])
-    entry = ch.pick(["parse", "parse", "parse", "header", "header", "parse-rel", "parse-rel", "run", "run", "parse-inj", "parse-inj", "parse-file", "run-file", "parse-alt"])
+    entry = ch.pick(["parse", "parse", "parse", "header", "header", "parse-rel", "parse-rel", "run", "run", "parse-inj", "parse-inj", "parse-file", "run-file", "parse-alt", "parse-inj-load", "parse-expand", "parse-expand"])
     tokens = None
     if kind == "junk":
         n = ch.int(0, 40)
@@ -137,6 +137,9 @@ def _string_case(ch):
                 "register q[2]\ng q[00000000000000000001]\n",
                 "macro m a a { g a }\n",
                 "register q[2]\nmacro m { m }\nm\n",
+                "register q[2]\nmacro m a { m a }\nm q[0]\n",
+                "register q[2]\nmacro a { b }\nmacro b { a }\na\n",
+                "register q[2]\nmacro m a { g a }\nloop 2 { m q[1] }\nm 1.5\n",
                 "register q[1]\nbranch { '0': { g q[0] } }\n",
                 "from . usepulses *\nregister q[1]\n",
                 "from a..b usepulses *\n",
@@ -211,10 +214,10 @@ def strings(case):
     else:
         classes.append("outcome:ok")
     # token-built texts: the recognizer decides well-formedness
-    if case.get("tokens") is not None and entry in ("parse", "header"):
+    if case.get("tokens") is not None and entry in ("parse", "header", "parse-expand"):
         vt = c02._value_tokens([tuple(t) for t in case["tokens"]])
         acc, k = refgrammar.earley([x[0] for x in vt])
-        if not acc and entry == "parse":
+        if not acc and entry in ("parse", "parse-expand"):
             if not rejected or out[1] != "JaqalParseError":
                 raise Violation("ill-formed-text-not-a-parse-error", f"recognizer rejects (first offending token {k}); outcome {out[:2]}\n{ctx}", where=entry)
     # lexical faults that every entry point must report as parse errors
@@ -286,6 +289,13 @@ POOL_TEXTS = [
     ("run-file", "from .pkgd usepulses *\nregister q[2]\nsubcircuit { XD q[1] 1.0 }\n"),
     ("run-file", "from .moda usepulses *\nregister q[2]\nXA q[1]\n"),
     ("run", "from .pkgc usepulses *\nregister q[2]\nsubcircuit { XC q[0] }\n"),
+    ("parse-expand", "register q[2]\nmacro m { m }\nm\n"),
+    ("parse-expand", "let n 2\nregister q[n]\nmacro m a { g a n }\nloop n { m q[1] }\n"),
+    ("parse-inj-load", "from vlib.pulses.modb usepulses *\nregister q[2]\nXB q[0]\nGP q[1]\n"),
+    ("parse-inj-load", "from .modb usepulses *\nregister q[2]\nGP q[1]\nSP q[0]\n"),
+    ("parse-inj-load", "from vlib.pulses.pkgd usepulses *\nregister q[2]\nXD q[0] 0.5\nXA q[1]\n"),
+    ("parse-rel", "from vlib.pulses.modb usepulses *\nregister q[2]\nGP q[0] q[1]\nSP q[1]\n"),
+    ("run", "from vlib.pulses.modb usepulses *\nregister q[2]\nsubcircuit { GP q[0] q[1]; SP q[1] }\n"),
     ("parse-inj", "register q[2]\nmacro flip a { XA a }\nflip q[0]\n"),
     ("parse-inj", "register q[2]\nflip q[0]\n"),
     ("parse-inj", "register q[2]\nmacro pair a { XA a }\npair q[0]\n"),
